@@ -52,7 +52,8 @@ def _spikes_float(draw, tier):
     c = draw(gen.float_train_lists(2, 2, max_spikes=8 if tier == "quick" else 20))
     ln = c["t1"] - c["t0"]
     c["kind"] = "spikes"
-    c["mrts"] = draw(gen.float_mrts(ln)) or 0.0
+    m = draw(gen.float_mrts(ln))
+    c["mrts"] = 0.0 if (m is None or m == "auto") else m
     c["ri"] = draw(st.booleans())
     c["max_tau"] = draw(st.one_of(st.just(0.0),
                                   st.integers(1, 1 << 20).map(lambda k: ln * k / (1 << 20))))
